@@ -44,7 +44,7 @@ PIPE_GHG = [5.90, 9.71, 13.94, 18.43, 23.16, 28.09, 33.09, 38.35, 43.76, 54.99, 
 
 
 # appended to RULE in the evidence (vlib/runner.py)
-RULE_ADDENDUM = 'Added in round 4: reservoirs with net inflow in the hand-made result tables (Todini). Round 6: Pattern objects built with foreign time options (tuple, or taken from another model) added to the model and used by demands.'
+RULE_ADDENDUM = 'Added in round 4: reservoirs with net inflow in the hand-made result tables (Todini). Round 6: Pattern objects built with foreign time options (tuple, or taken from another model) added to the model and used by demands. Round 7: two fifths of the multi-pump cases present the energy table in reversed column order with a tariff per pump.'
 
 def n_cases(tier):
     return 200 if tier == 'quick' else 3000
